@@ -130,6 +130,17 @@ def yield_name(y, T):
     return '%s:%s' % (y['basename'], y['sub'])
 
 
+def oracle_utd(y):
+    """is the created task up-to-date on a fresh DB: `uptodate=[True]` / an uptodate callable returning True, and no
+    file_dep (whose state was never saved)"""
+    if y.get('utd_fn') is not None:
+        # getargs adds a result_dep on its source (never up-to-date on a fresh DB) -- unless the source is also listed
+        # in `setup` (Task._init_getargs: `if parts[0] not in self.setup_tasks`)
+        forced = any(src not in (y.get('setup') or []) for src in (y.get('getargs') or {}).values())
+        return bool(y['utd_fn']) and not y.get('file_dep') and not forced
+    return bool(y['utd'])
+
+
 def ref_name(cr, T, r):
     """a reference inside a yield: a static task name (str) or {'ref': j} = the j-th yield of the same creator"""
     return yield_name(cr['yields'][r['ref']], T) if isinstance(r, dict) else r
@@ -158,7 +169,7 @@ def make_tasks(cr, T):
         y = cr['yields'][0]
         name = y['basename'] if y.get('basename') else T
         return [{'name': name, 'deps': list(y['task_dep']), 'fileDep': list(y.get('file_dep', [])),
-                 'targets': list(y['targets']), 'group': False, 'utd': y['utd'], 'fails': y['fails'],
+                 'targets': list(y['targets']), 'group': False, 'utd': oracle_utd(y), 'fails': y['fails'],
                  'extra': extra_deps(cr, T, y)}]
     out = {}
     order = []
@@ -173,7 +184,7 @@ def make_tasks(cr, T):
         if name not in out:
             order.append(name)
         out[name] = {'name': name, 'deps': list(y['task_dep']), 'fileDep': list(y.get('file_dep', [])),
-                     'targets': list(y['targets']), 'group': False, 'utd': y['utd'], 'fails': y['fails'],
+                     'targets': list(y['targets']), 'group': False, 'utd': oracle_utd(y), 'fails': y['fails'],
                      'extra': extra_deps(cr, T, y)}
     if not order:
         return [{'name': T, 'deps': [], 'fileDep': [], 'targets': [], 'group': True, 'extra': []}]
